@@ -183,6 +183,246 @@ fn parse_cases(tier: Tier) -> Vec<ParseCase> {
     out
 }
 
+// ------------------------------------------------------------------------------- enforcement
+
+#[derive(Clone, Copy, Debug, PartialEq, Eq)]
+enum Side {
+    /// tonic Server::timeout against a bare hyper client
+    Server,
+    /// tonic Endpoint::timeout + Request::set_timeout against a bare hyper server
+    Client,
+    /// tonic client against tonic server (caller-visible status text)
+    Both,
+}
+
+#[derive(Clone, Debug)]
+struct EnfCase {
+    side: Side,
+    caller_ms: Option<u64>,
+    configured_ms: Option<u64>,
+    latency_ms: u64,
+    chop: usize,
+}
+
+struct SlowEcho {
+    latency: Duration,
+    calls: std::sync::Arc<std::sync::atomic::AtomicU32>,
+}
+
+type BoxStream = std::pin::Pin<Box<dyn tokio_stream::Stream<Item = Result<Vec<u8>, tonic::Status>> + Send + 'static>>;
+
+#[tonic::async_trait]
+impl crate::fixtures::echo::echo_server::Echo for SlowEcho {
+    async fn unary(&self, _r: tonic::Request<Vec<u8>>) -> Result<tonic::Response<Vec<u8>>, tonic::Status> {
+        self.calls.fetch_add(1, std::sync::atomic::Ordering::SeqCst);
+        tokio::time::sleep(self.latency).await;
+        Ok(tonic::Response::new(vec![9]))
+    }
+    type ServerStreamStream = BoxStream;
+    async fn server_stream(&self, _r: tonic::Request<Vec<u8>>) -> Result<tonic::Response<BoxStream>, tonic::Status> {
+        Err(tonic::Status::unimplemented(""))
+    }
+    async fn client_stream(&self, _r: tonic::Request<tonic::Streaming<Vec<u8>>>) -> Result<tonic::Response<Vec<u8>>, tonic::Status> {
+        Err(tonic::Status::unimplemented(""))
+    }
+    type BidiStream = BoxStream;
+    async fn bidi(&self, _r: tonic::Request<tonic::Streaming<Vec<u8>>>) -> Result<tonic::Response<BoxStream>, tonic::Status> {
+        Err(tonic::Status::unimplemented(""))
+    }
+}
+
+/// (outcome, virtual milliseconds elapsed)
+#[derive(Debug, Clone, PartialEq)]
+enum EnfOutcome {
+    Answer,
+    Cancelled(String),
+    Other(String),
+    Hang,
+}
+
+fn enf_run(c: &EnfCase) -> (EnfOutcome, u64) {
+    use crate::env::vnet::{self, ConnectMode};
+    use crate::fixtures::echo::{echo_client::EchoClient, echo_server::EchoServer};
+    use http_body_util::BodyExt;
+    let rt = vnet::runtime(5);
+    let c = c.clone();
+    rt.block_on(async move {
+        let (st, mut rx) = vnet::connector_state(ConnectMode::Succeed, false, c.chop);
+        let latency = Duration::from_millis(c.latency_ms);
+        let calls = std::sync::Arc::new(std::sync::atomic::AtomicU32::new(0));
+        // ---- server
+        match c.side {
+            Side::Server | Side::Both => {
+                let mut b = tonic::transport::Server::builder();
+                if let (Some(ms), true) = (c.configured_ms, c.side == Side::Server) {
+                    b = b.timeout(Duration::from_millis(ms));
+                }
+                let svc = EchoServer::new(SlowEcho { latency, calls: calls.clone() });
+                tokio::spawn(async move {
+                    let _ = b.add_service(svc).serve_with_incoming(vnet::incoming(rx)).await;
+                });
+            }
+            Side::Client => {
+                // a bare hyper HTTP/2 server: sleeps, then answers one gRPC message + OK trailers
+                tokio::spawn(async move {
+                    while let Some(io) = rx.recv().await {
+                        tokio::spawn(async move {
+                            let svc = hyper::service::service_fn(move |_req: http::Request<hyper::body::Incoming>| async move {
+                                tokio::time::sleep(latency).await;
+                                let mut t = http::HeaderMap::new();
+                                t.insert("grpc-status", http::HeaderValue::from_static("0"));
+                                let frames: Vec<Result<http_body::Frame<bytes::Bytes>, std::convert::Infallible>> = vec![
+                                    Ok(http_body::Frame::data(bytes::Bytes::from(crate::oracle::wire::encode_frame(0, &[9])))),
+                                    Ok(http_body::Frame::trailers(t)),
+                                ];
+                                let body = http_body_util::StreamBody::new(tokio_stream::iter(frames));
+                                Ok::<_, std::convert::Infallible>(http::Response::builder().status(200).header("content-type", "application/grpc").body(body).unwrap())
+                            });
+                            let _ = hyper::server::conn::http2::Builder::new(hyper_util::rt::TokioExecutor::new()).serve_connection(hyper_util::rt::TokioIo::new(io), svc).await;
+                        });
+                    }
+                });
+            }
+        }
+        // ---- client
+        let t0 = tokio::time::Instant::now();
+        let horizon = Duration::from_secs(3600);
+        let out = match c.side {
+            Side::Client | Side::Both => {
+                let mut ep = tonic::transport::Endpoint::from_static("http://c09.test:1");
+                if let Some(ms) = c.configured_ms {
+                    ep = ep.timeout(Duration::from_millis(ms));
+                }
+                let chn = match vnet::within(horizon, ep.connect_with_connector(vnet::connector(st))).await {
+                    Some(Ok(c)) => c,
+                    other => return (EnfOutcome::Other(format!("connect: {:?}", other.map(|r| r.map(|_| ()).map_err(|e| e.to_string())))), 0),
+                };
+                let mut client = EchoClient::new(chn);
+                let mut req = tonic::Request::new(vec![1]);
+                if let Some(ms) = c.caller_ms {
+                    req.set_timeout(Duration::from_millis(ms));
+                }
+                let t0 = tokio::time::Instant::now();
+                let r = vnet::within(horizon, client.unary(req)).await;
+                let dt = t0.elapsed().as_millis() as u64;
+                return match r {
+                    None => (EnfOutcome::Hang, dt),
+                    Some(Ok(resp)) if resp.get_ref() == &vec![9] => (EnfOutcome::Answer, dt),
+                    Some(Ok(_)) => (EnfOutcome::Other("wrong answer".into()), dt),
+                    Some(Err(e)) if e.code() == tonic::Code::Cancelled => (EnfOutcome::Cancelled(e.message().to_string()), dt),
+                    Some(Err(e)) => (EnfOutcome::Other(crate::env::fmt_status(&e)), dt),
+                };
+            }
+            Side::Server => {
+                // bare hyper HTTP/2 client
+                use tower_service::Service;
+                let mut conn = vnet::connector(st);
+                let io = match conn.call(http::Uri::from_static("http://c09.test:1")).await {
+                    Ok(io) => io,
+                    Err(e) => return (EnfOutcome::Other(format!("pipe: {e}")), 0),
+                };
+                let (mut send, connection) = match hyper::client::conn::http2::handshake(hyper_util::rt::TokioExecutor::new(), io).await {
+                    Ok(x) => x,
+                    Err(e) => return (EnfOutcome::Other(format!("handshake: {e}")), 0),
+                };
+                tokio::spawn(async move {
+                    let _ = connection.await;
+                });
+                let mut b = http::Request::builder().method("POST").uri("http://c09.test:1/fx.Echo/Unary").header("content-type", "application/grpc").header("te", "trailers");
+                if let Some(ms) = c.caller_ms {
+                    b = b.header("grpc-timeout", format!("{ms}m"));
+                }
+                let req = b.body(http_body_util::Full::new(bytes::Bytes::from(crate::oracle::wire::encode_frame(0, &[1])))).unwrap();
+                let t0 = tokio::time::Instant::now();
+                let r = vnet::within(horizon, async {
+                    let resp = send.send_request(req).await.map_err(|e| e.to_string())?;
+                    let (parts, body) = resp.into_parts();
+                    let col = body.collect().await.map_err(|e| e.to_string())?;
+                    let trailers = col.trailers().cloned();
+                    let data = col.to_bytes();
+                    Ok::<_, String>((parts, data, trailers))
+                })
+                .await;
+                let dt = t0.elapsed().as_millis() as u64;
+                match r {
+                    None => (EnfOutcome::Hang, dt),
+                    Some(Err(e)) => (EnfOutcome::Other(e), dt),
+                    Some(Ok((parts, data, trailers))) => {
+                        let status = parts.headers.get("grpc-status").or_else(|| trailers.as_ref().and_then(|t| t.get("grpc-status"))).map(|v| String::from_utf8_lossy(v.as_bytes()).to_string());
+                        let msg = parts.headers.get("grpc-message").or_else(|| trailers.as_ref().and_then(|t| t.get("grpc-message"))).map(|v| String::from_utf8_lossy(v.as_bytes()).to_string()).unwrap_or_default();
+                        match status.as_deref() {
+                            Some("0") if data[..] == crate::oracle::wire::encode_frame(0, &[9])[..] => (EnfOutcome::Answer, dt),
+                            Some("1") => (EnfOutcome::Cancelled(crate::oracle::pct::decode_strict(msg.as_bytes()).unwrap_or(msg)), dt),
+                            other => (EnfOutcome::Other(format!("grpc-status {other:?} message {msg:?} data {}", crate::env::hex(&data))), dt),
+                        }
+                    }
+                }
+            }
+        };
+        let _ = t0;
+        out
+    })
+}
+
+fn enf_body(c: &EnfCase, _ch: &Chooser) -> Outcome {
+    let (out, dt) = enf_run(c);
+    let mut o = Outcome::new(format!("{out:?} after {dt} ms"));
+    let limit = match (c.caller_ms, c.configured_ms) {
+        (None, None) => None,
+        (Some(a), None) => Some(a),
+        (None, Some(b)) => Some(b),
+        (Some(a), Some(b)) => Some(a.min(b)),
+    };
+    // Side::Both: the server has no configured timeout of its own but reads the caller's header
+    o.nontrivial = limit.is_some();
+    let near = |t: u64, want: u64| t + 2 >= want && t <= want + 2;
+    match limit {
+        Some(l) if c.latency_ms > l => match &out {
+            EnfOutcome::Cancelled(msg) => {
+                if !msg.contains("Timeout expired") {
+                    o.violate("timeout-status-text", format!("CANCELLED but message {msg:?}"));
+                }
+                if !near(dt, l) {
+                    o.violate("timeout-at-wrong-time", format!("cut off after {dt} ms, the shorter deadline is {l} ms (caller {:?}, configured {:?})", c.caller_ms, c.configured_ms));
+                }
+            }
+            other => o.violate("deadline-not-enforced", format!("latency {} ms exceeds the shorter deadline {l} ms (caller {:?}, configured {:?}) but the outcome was {other:?} after {dt} ms", c.latency_ms, c.caller_ms, c.configured_ms)),
+        },
+        _ => {
+            if out != EnfOutcome::Answer {
+                o.violate("call-cut-off-early", format!("latency {} ms is within the deadline {limit:?} but the outcome was {out:?} after {dt} ms", c.latency_ms));
+            } else if !near(dt, c.latency_ms) {
+                o.violate("answer-at-wrong-time", format!("answer after {dt} ms, handler latency {} ms", c.latency_ms));
+            }
+        }
+    }
+    o
+}
+
+fn enf_cases(tier: Tier) -> Vec<EnfCase> {
+    let mut out = vec![];
+    let mut n = 0;
+    for side in [Side::Server, Side::Client] {
+        for caller_ms in [None, Some(50u64), Some(200)] {
+            for configured_ms in [None, Some(50u64), Some(200)] {
+                for latency_ms in [10u64, 100, 300] {
+                    n += 1;
+                    let chops: Vec<usize> = if tier == Tier::Thorough { vec![0, 2, 3] } else { vec![[0, 2, 3][n % 3]] };
+                    for chop in chops {
+                        out.push(EnfCase { side, caller_ms, configured_ms, latency_ms, chop });
+                    }
+                }
+            }
+        }
+    }
+    for caller_ms in [None, Some(50u64), Some(200)] {
+        for latency_ms in [10u64, 100, 300] {
+            out.push(EnfCase { side: Side::Both, caller_ms, configured_ms: None, latency_ms, chop: 0 });
+        }
+    }
+    out
+}
+
 pub fn property(tier: Tier) -> Property {
     let enc = Section::new(
         "encode",
@@ -205,6 +445,15 @@ pub fn property(tier: Tier) -> Property {
         parse_body,
     )
     .mins(1000, 100, 100);
+    let enf = Section::new(
+        "enforce",
+        Config { hang_secs: 60, ..Default::default() },
+        "cases: the full grid caller timeout {none, 50, 200 ms} x configured timeout {none, 50, 200 ms} x handler latency {10, 100, 300 ms} (off the exact ties) for each side against a NON-tonic peer — Server::timeout driven by a bare hyper HTTP/2 client sending grpc-timeout, and Endpoint::timeout + Request::set_timeout against a bare hyper HTTP/2 server with scripted latency (so that one side's enforcement cannot mask the other's) — plus a tonic-to-tonic pass for the caller-visible status text; in-memory pipes, paused clock (exact virtual durations); oracle: latency below the shorter deadline => the real answer at t = latency; above => CANCELLED 'Timeout expired' at t = min(caller, configured) (+-2 ms timer granularity). Non-trivial = some deadline is set.",
+        enf_cases(tier),
+        |c: &EnfCase| format!("{c:?}"),
+        enf_body,
+    )
+    .mins(50, 3, 30);
     Property {
         id: "C09",
         level: "exploration",
@@ -213,7 +462,7 @@ pub fn property(tier: Tier) -> Property {
             "the parser is observed through the add-only hook tonic::transport::verif_hooks::parse_grpc_timeout (feature verif-hooks)".into(),
             "durations above 99999999 hours are outside the property (set_timeout panics there by design)".into(),
         ],
-        sections: vec![enc, parse],
+        sections: vec![enc, parse, enf],
         extra: Default::default(),
     }
 }
